@@ -7,10 +7,10 @@ Open Scope Z_scope.
 Definition within_limit (lim : N) (z : Z) : bool := negb (over_limit lim (ndigits_Z z)).
 
 Lemma str_of_int_ok lim z : within_limit lim z = true -> str_of_int lim z = Ok (dec_of_Z z).
-Proof. unfold within_limit, str_of_int. intros H. apply negb_true_iff in H. rewrite H. reflexivity. Qed.
+Proof. unfold within_limit. rewrite str_of_int_eq. intros H. apply negb_true_iff in H. rewrite H. reflexivity. Qed.
 
 Lemma str_of_int_over lim z : within_limit lim z = false -> str_of_int lim z = Exn ValueError.
-Proof. unfold within_limit, str_of_int. intros H. apply negb_false_iff in H. rewrite H. reflexivity. Qed.
+Proof. unfold within_limit. rewrite str_of_int_eq. intros H. apply negb_false_iff in H. rewrite H. reflexivity. Qed.
 
 Lemma within_limit_unlimited z : within_limit 0 z = true.
 Proof. reflexivity. Qed.
@@ -26,7 +26,7 @@ Qed.
 Lemma py_str_exn lim v e : py_str lim v = Exn e -> e = ValueError.
 Proof.
   destruct v as [s|z|[|]| |sv iv]; cbn [py_str]; try discriminate.
-  unfold str_of_int. destruct (over_limit lim (ndigits_Z z)); [congruence|discriminate].
+  rewrite str_of_int_eq. destruct (over_limit lim (ndigits_Z z)); [congruence|discriminate].
 Qed.
 
 Lemma catches_VE : catches [ValueError] ValueError = true. Proof. reflexivity. Qed.
@@ -68,13 +68,13 @@ Lemma is_int_like_str_total lim s : is_int_like lim (PStr s) = Ok true \/ is_int
 Proof.
   unfold is_int_like, try_except, bind. cbn [py_int_of py_str].
   destruct (int_parse lim 10 s) as [z|]; [|right; reflexivity].
-  unfold str_of_int. destruct (over_limit lim (ndigits_Z z)); [right; reflexivity|].
+  rewrite str_of_int_eq. destruct (over_limit lim (ndigits_Z z)); [right; reflexivity|].
   destruct (beq (dec_of_Z z) s); [left|right]; reflexivity.
 Qed.
 
 Lemma is_int_like_int lim z : is_int_like lim (PInt z) = Ok (within_limit lim z).
 Proof.
-  unfold is_int_like, try_except, bind, within_limit. cbn [py_int_of py_str]. unfold str_of_int.
+  unfold is_int_like, try_except, bind, within_limit. cbn [py_int_of py_str]. rewrite str_of_int_eq.
   destruct (over_limit lim (ndigits_Z z)); [reflexivity|]. rewrite beq_refl. reflexivity.
 Qed.
 
@@ -83,7 +83,7 @@ Proof. unfold over_limit. destruct lim; [reflexivity|]. apply andb_false_iff. ri
 
 Lemma is_int_like_bool lim b : is_int_like lim (PBool b) = Ok false.
 Proof.
-  unfold is_int_like, try_except, bind. cbn [py_int_of py_str]. unfold str_of_int.
+  unfold is_int_like, try_except, bind. cbn [py_int_of py_str]. rewrite str_of_int_eq.
   destruct b.
   - change (ndigits_Z 1) with 1%N. rewrite over_limit_1. reflexivity.
   - change (ndigits_Z 0) with 1%N. rewrite over_limit_1. reflexivity.
